@@ -72,6 +72,36 @@ def grow (sp : Spec) : Nat → List Task → List String → List String
 def needed (sp : Spec) : Option (List String) :=
   if isTask sp sp.target then some (grow sp sp.tasks.length sp.tasks [sp.target]) else none
 
+/-! ### definition-time validation: `ReverseWorkflowSpec._check_workflow_integrity` -/
+
+/-- every task the named task requires is resolved -/
+def readyN (sp : Spec) (done : List String) (n : String) : Bool := (reqsN sp n).all done.contains
+
+/-- `_check_requires_cycles`: the task names are resolved layer by layer (a task is resolved once
+    everything it requires is); `false` = a round in which nothing can be resolved while names remain
+    (InvalidModelException "cyclic 'requires'").  One round per remaining name always suffices
+    (`peel_fuel`), the python loop has no bound. -/
+def peel (sp : Spec) : Nat → List String → List String → Bool
+  | _, [], _ => true
+  | 0, _ :: _, _ => false
+  | f + 1, rem, done =>
+    let ready := rem.filter (readyN sp done)
+    if ready.isEmpty then false
+    else peel sp f (rem.filter fun n => !(done ++ ready).contains n) (done ++ ready)
+
+def requiresAcyclic (sp : Spec) : Bool := peel sp sp.tasks.length (sp.tasks.map (·.name)) []
+
+inductive IntegrityErr where
+  | taskNotFound      -- InvalidModelException "Task '…' not found."
+  | requiresCycle     -- InvalidModelException "… (cyclic 'requires') …"
+  deriving Repr, DecidableEq
+
+/-- `_check_workflow_integrity`: first every required name must be a task, then no cycle -/
+def checkIntegrity (sp : Spec) : Option IntegrityErr :=
+  if !(sp.tasks.all fun t => (requiresOf sp t).all (isTask sp)) then some .taskNotFound
+  else if !requiresAcyclic sp then some .requiresCycle
+  else none
+
 structure TaskRow where
   name : String
   state : St
